@@ -37,7 +37,10 @@ DIM = {
 }
 
 
-def arg(name, dim, dtype=F64, unit=None, dims=(), origin='argument', sym_scale=True):
+INPUTS = {}   # input symbols of the contracts (for the numeric falsifier): name -> 'pos' | 'real' | 'nonneg'
+
+
+def arg(name, dim, dtype=F64, unit=None, dims=(), origin='argument', sym_scale=True, kind='pos'):
     """Symbolic scalar/element-generic argument `name` with a unit of dimension `dim` and symbolic
     positive scale k_<name> (or the fixed `unit`)."""
     like = DIM[dim] if isinstance(dim, str) else dim
@@ -47,10 +50,20 @@ def arg(name, dim, dtype=F64, unit=None, dims=(), origin='argument', sym_scale=T
         unit = units.as_unit(unit)
     if dtype == VEC:
         val = [z3.Real(f'{name}_{c}') for c in 'xyz']
+        for c in 'xyz':
+            INPUTS[f'{name}_{c}'] = 'real'
     elif dtype in MATS:
         val = [[z3.Real(f'{name}_{i}{j}') for j in range(3)] for i in range(3)]
+        for i in range(3):
+            for j in range(3):
+                INPUTS[f'{name}_{i}{j}'] = 'real'
     else:
         val = z3.Real(name)
+        INPUTS[name] = kind
+    for sname in unit.pows:
+        INPUTS[sname] = 'pos'
+    INPUTS['h_planck'] = 'pos'
+    INPUTS['m_neutron'] = 'pos' 
     return Var(Buf(val, unit, dtype, origin=origin, tag=name), dims)
 
 
